@@ -26,6 +26,9 @@ func runC02(c *Ctx) {
 	c03ExactFirst(c, "C02.exact-first")
 	c02FoundPrefix(c, "C02.found-prefix")
 	c02Feature(c)
+	// the bulk loader is one of the storage configurations: a key split over two SST files loses values at ingestion
+	c.importRules(runC07, "C07", map[string]string{"buckets": "buckets"})
+	c02MapWalk(c, "C02")
 }
 
 func c01TypeFilter2(c *Ctx, rule string) {
